@@ -32,7 +32,7 @@ type idiomMsg struct {
 
 type idiomParams struct {
 	Prop string
-	API  string // "raw" | "wsjson"
+	API  string  // "raw" | "wsjson"
 	K    connCfg // endpoint A (the writer); B has the other role
 	Msgs []idiomMsg
 	// Duplex: B writes the same message sequence back to A at the same time (two more tasks)
